@@ -11,7 +11,8 @@ from . import common, gencalls, implrun, irser
 from .c08 import eq
 from .common import sx
 
-KINDS = ["positional", "name_kw", "all_kw", "var_kw", "object", "object_unhashable", "argindex_kw", "deco_positional", "deco_all_kw", "deco_name_kw"]
+KINDS = ["positional", "name_kw", "all_kw", "var_kw", "object", "object_unhashable", "argindex_kw", "deco_positional", "deco_all_kw", "deco_name_kw",
+         "array_default", "star_args"]
 
 
 def _deco(f):
@@ -71,6 +72,16 @@ class Recorder:
             rec.calls.append((shape, {"arg_index": arg_index}))
             return rec.result(shape)
 
+        def array_default(shape, name=None, table=np.arange(3)):
+            # a parameter whose default is an array: signatures are compared on every cached call
+            rec.calls.append((shape, {"name": name}))
+            return rec.result(shape)
+
+        def star_args(shape, *rest):
+            # declares none of the optional keywords (and cannot take any)
+            rec.calls.append((shape, {}))
+            return rec.result(shape)
+
         class Obj:
             def __call__(self, shape, name="x"):
                 rec.calls.append((shape, {"name": name}))
@@ -92,15 +103,16 @@ class Recorder:
             return ObjEq(id(rec))
         if self.kind.startswith("deco_"):
             return _deco({"positional": positional, "name_kw": name_kw, "all_kw": all_kw}[self.kind[5:]])
-        return {"positional": positional, "name_kw": name_kw, "all_kw": all_kw, "var_kw": var_kw, "object": Obj(), "argindex_kw": argindex_kw}[self.kind]
+        return {"positional": positional, "name_kw": name_kw, "all_kw": all_kw, "var_kw": var_kw, "object": Obj(), "argindex_kw": argindex_kw,
+                "array_default": array_default, "star_args": star_args}[self.kind]
 
 
 def expected_kwargs(kind, op, idx):
     if kind.startswith("deco_"):
         kind = kind[5:]
-    if kind == "positional":
+    if kind in ("positional", "star_args"):
         return {}
-    if kind in ("name_kw", "object", "object_unhashable"):
+    if kind in ("name_kw", "object", "object_unhashable", "array_default"):
         return {"name": op}
     if kind == "argindex_kw":
         return {"arg_index": idx}
